@@ -113,6 +113,30 @@ func collectParamHeaderAnnotations(props map[string]headerSchemaProperty, prefix
 	return out
 }
 
+// decodeArguments returns the arguments object of tools/call params as the
+// server dispatches it: the entries of the last "arguments" member (the
+// dispatcher decodes the member into a json.RawMessage, so a repeated member
+// overwrites the earlier one). Decoding params straight into a map would
+// merge repeated members, and the Mcp-Param-* headers would be compared with
+// entries the tool handler never receives. A missing or null member yields a
+// nil map.
+func decodeArguments(params json.RawMessage) (map[string]json.RawMessage, error) {
+	var raw struct {
+		Arguments json.RawMessage `json:"arguments"`
+	}
+	if err := internaljson.Unmarshal(params, &raw); err != nil {
+		return nil, err
+	}
+	if len(raw.Arguments) == 0 {
+		return nil, nil
+	}
+	var args map[string]json.RawMessage
+	if err := internaljson.Unmarshal(raw.Arguments, &args); err != nil {
+		return nil, err
+	}
+	return args, nil
+}
+
 // lookupArgument navigates the arguments object using the given property-name
 // path and returns the raw JSON value at that location. It reports whether
 // the value was found.
@@ -227,16 +251,14 @@ func generateParamHeaders(tool *Tool, params json.RawMessage) map[string]string 
 		return nil
 	}
 
-	var raw struct {
-		Arguments map[string]json.RawMessage `json:"arguments"`
-	}
-	if err := internaljson.Unmarshal(params, &raw); err != nil || raw.Arguments == nil {
+	args, err := decodeArguments(params)
+	if err != nil || args == nil {
 		return nil
 	}
 
 	res := make(map[string]string)
 	for _, b := range paramHeaders {
-		argRaw, ok := lookupArgument(raw.Arguments, b.Path)
+		argRaw, ok := lookupArgument(args, b.Path)
 		if !ok {
 			continue
 		}
@@ -405,17 +427,15 @@ func validateParamHeaders(header http.Header, msg *jsonrpc.Request, tool *Tool) 
 		return nil
 	}
 
-	var raw struct {
-		Arguments map[string]json.RawMessage `json:"arguments"`
-	}
-	if err := internaljson.Unmarshal(msg.Params, &raw); err != nil {
+	args, err := decodeArguments(msg.Params)
+	if err != nil {
 		return nil
 	}
 
 	for _, b := range paramHeaders {
 		fullHeader := paramHeaderPrefix + b.Header
 		headerVal := header.Get(fullHeader)
-		argRaw, argExists := lookupArgument(raw.Arguments, b.Path)
+		argRaw, argExists := lookupArgument(args, b.Path)
 
 		if !argExists || string(argRaw) == "null" {
 			if headerVal != "" {
